@@ -308,6 +308,13 @@ impl Number {
     pub fn prettify(&self, context: &Context) -> Number {
         let unit = self.pretty_unit(context);
         if let Some(orig) = unit.as_single() {
+            // An exponent beyond i32 gets no prefix.
+            if orig.1.unsigned_abs() > i32::MAX as u64 {
+                return Number {
+                    value: self.value.clone(),
+                    unit: unit.clone(),
+                };
+            }
             use std::collections::HashSet;
             let prefixes = [
                 "milli", "micro", "nano", "pico", "femto", "atto", "zepto", "yocto", "kilo",
